@@ -81,7 +81,7 @@ func (c01Driver) Tier(t string) core.Tier {
 
 func (c01Driver) Info() core.Info {
 	return core.Info{
-		Rule: "A case is a module set (generated, incl. deliberately cyclic / dangling / colliding constructs, or 1-4 files of the repository's testdata), derived damaged or rejected texts, a simulated disk holding a subset of them under lib/, a plan of storage faults at (path, occurrence), and a history of 2-12 operations over {Parse, Read, GetModule, Process, query walk (ToEntry, Find, GetErrors, Namespace, InstantiatingModule, ReadOnly, defaults, Print)} under a seeded map order. " +
+		Rule: "In half of the cases the trees are also read after a Process that returned errors (never after a load that has not been processed). A case is a module set (generated, incl. deliberately cyclic / dangling / colliding constructs, or 1-4 files of the repository's testdata), derived damaged or rejected texts, a simulated disk holding a subset of them under lib/, a plan of storage faults at (path, occurrence), and a history of 2-12 operations over {Parse, Read, GetModule, Process, query walk (ToEntry, Find, GetErrors, Namespace, InstantiatingModule, ReadOnly, defaults, Print)} under a seeded map order. " +
 			"Non-trivial: at least one fault fired or one load failed or the set was processed while incomplete. Distinct = distinct case descriptions.",
 		Assumptions: []string{
 			"crash-freedom over all byte strings is a pure-function claim outside this technique; this check reaches histories, incomplete sets and the fault neighbourhood (<= 8 faults, or 30-70 flipped bits in garbage mode) of generated-valid modules and of the repository's testdata",
